@@ -89,10 +89,10 @@ PROPS = {
         'not_decided': ['str::splitn / f64::from_str / jlabel::Label::from_str: tokenisation and parsing themselves, panic-freedom included', 'load_from_strings beyond 3 lines'],
     },
     'C04': {
-        'technique': 'Verus contracts on the extracted text of Tree::search_node, Model::{get_index,get_parameter}, ModelParameter::from_linear; Kani harnesses for find_tree_index, the PDF row split and the real body of convert_tree (cut from the tree every run; std BTreeMap replaced by a list-backed map)',
+        'technique': 'Verus contracts on the extracted text of Tree::search_node, Model::{get_index,get_parameter}, ModelParameter::from_linear and of the header-entry to stream-metadata conversion (From<StreamData>); Kani harnesses for find_tree_index, the PDF row split and the real body of convert_tree (cut from the tree every run; std BTreeMap replaced by a list-backed map)',
         'level_text': 'unbounded proof (any tree size / table size) that the Gaussian handed out is pdf[first tree with matching state][leaf reached by the yes/no walk - 1] and that a PDF row splits into means|variances|msd; partial correctness (termination of the walk assumed)',
         'level_note': 'PARTIAL: question matching (jlabel-question fast path / regex) is an uninterpreted predicate; section split, header deserializer, tree text parser and window parsing are not under contract; the PDF-block reader of parse_model (counts first, then n rows of pdf_len values per tree through from_linear) is checked bounded on its statements cut from the text with the combinators of nom replaced by stand-ins over a decoded number stream (K-pdfblock); the character helpers of the header deserializer parse_bool / parse_string / next_delimiter on every ASCII input of <= 4 bytes (K-de-text); convert_tree is checked bounded on one-node trees only (single leaf, one question with two leaves, undefined references): the node-order / child-index rule for larger trees gave no answer under CBMC in 20 minutes',
-        'verus': ['tree'],
+        'verus': ['tree', 'header'],
         'hole_units': ['cond'],
         'assumptions': ['Question::test is a deterministic predicate of (question, label) (uninterpreted test_spec)',
                         'Model::find_tree_index == first tree whose state matches (Kani-checked, bounded trees <= 3)'],
@@ -126,10 +126,10 @@ PROPS = {
     },
     'C01': {
         'scans': ['vocoder_no_hidden_state'],
-        'technique': 'Verus contracts on the extracted text of SpeechGenerator, DurationEstimator and Engine::{generator,synthesize}; Kani harnesses for hole contracts and MlpgAdjust::create shapes',
+        'technique': 'Verus contracts on the extracted text of SpeechGenerator, DurationEstimator and Engine::{generator,synthesize}; Kani harnesses for hole contracts, MlpgAdjust::create shapes and Excitation::new (ring buffer of exactly nlpf slots); Verus unit ringbuf: Excitation::get indexes lpf only below the ring length',
         'level_text': 'unbounded proof of no-panic and exact length (fperiod x sum of state durations), every state >= 1 frame, every label contributes all states, empty -> empty, for 2- and 3-stream voices, relative to the assumed contracts of Models / MlpgAdjust / Vocoder; those contracts are bounded-checked by Kani where stated',
         'level_note': 'finiteness / "NaN only after runaway growth" is NOT decided (IIR stability in floating point); Vocoder::synthesize panic-freedom under shape_ok, Models::duration length and MlpgAdjust::create shape are assumed in Verus and only bounded-checked; usize overflow of frame totals excluded by precondition',
-        'verus': ['speech', 'duration', 'engine', 'vocoder'],
+        'verus': ['speech', 'duration', 'engine', 'vocoder', 'ringbuf'],
         'assumptions': VOC_ASSUMED + ['Models::duration returns labels*nstate entries (assumed)', 'MlpgAdjust::create returns sum(durations) rows of vector_length values (Kani: bounded)'],
         'trusted_base': [],
         'not_decided': ['all samples finite inside the stable range; non-finite only after runaway growth', 'Model::get_parameter todo!() unreachable only for well-formed models (precondition lookup_ok in unit tree)'],
